@@ -200,14 +200,16 @@ fn cmd_gen_front(args: &[String]) {
         }
         "cli" => {
             let bin = arg(args, "--cli-bin").expect("--cli-bin");
-            let n = if thorough { 20000 } else { 1600 };
+            let n = if thorough { 20000 + 65536 } else { 1600 };
             evs = (0..n)
                 .into_par_iter()
                 .map(|i| {
                     let mut rng = rng_for(i);
+                    // the last 65536 thorough scenarios enumerate every subset of the 16 flags
+                    let i = if thorough && i >= 20000 { 200_000 + (i - 20000) } else { i };
                     let sc = front::random_cli_scenario(&mut rng, i, thorough);
                     builds.fetch_add(1, std::sync::atomic::Ordering::Relaxed);
-                    front::run_cli(i + 1, &sc, &bin, &tmp)
+                    front::run_cli(if i >= 200_000 { i - 200_000 + 20001 } else { i + 1 }, &sc, &bin, &tmp)
                 })
                 .collect();
         }
